@@ -112,6 +112,29 @@ pub mod fasta {
             assert(shl(lfs(w, i, j), a) =~= Seq::<int>::empty());
         }
     }
+    /// appending bytes to b keeps what has been scanned
+    pub proof fn lemma_partial_prefix(b: Seq<u8>, b2: Seq<u8>, start: int, l: Seq<int>, e: int)
+        requires partial_l(b, start, l, e), b.len() <= b2.len(), b2.subrange(0, b.len() as int) == b
+        ensures partial_l(b2, start, l, e)
+    {
+        assert(b == b2.subrange(0, b.len() as int));
+        lemma_lfs_window(b2, 0, b, start, e);
+        assert(shl(lfs(b, start, e), 0) =~= lfs(b, start, e));
+        assert forall|x: int| start <= x < e && #[trigger] b2[x] == 10u8 implies x + 1 < b2.len() && b2[x + 1] != 62u8 by {
+            assert(b[x] == b2[x]);
+            assert(b[x + 1] == b2[x + 1]);
+        }
+    }
+    /// no record boundary in the scanned part of the buffer window means none in that part of the file
+    pub proof fn lemma_no_bnd_lift(f: Seq<u8>, a: int, w: Seq<u8>, i: int, j: int)
+        requires 0 <= a, a + w.len() <= f.len(), w == f.subrange(a, a + w.len()), 0 <= i <= j <= w.len(), no_bnd(w, i, j)
+        ensures no_bnd(f, a + i, a + j)
+    {
+        assert forall|x: int| a + i <= x < a + j && #[trigger] f[x] == 10u8 implies x + 1 < f.len() && f[x + 1] != 62u8 by {
+            assert(w[x - a] == f[x]);
+            assert(w[x - a + 1] == f[x + 1]);
+        }
+    }
     /// the record predicates are stable under taking a window of the file (buffer -> file lifting)
     pub proof fn lemma_rec_lift(f: Seq<u8>, a: int, w: Seq<u8>, start: int, l: Seq<int>, e: int)
         requires 0 <= a, a + w.len() <= f.len(), w == f.subrange(a, a + w.len())
@@ -512,6 +535,108 @@ pub mod fasta {
                             s0 < final(self).f().len() && final(self).f()[s0] != 62u8 && found == final(self).f()[s0] && line == true_line(final(self).f(), s0) })),
                 _ => false,
             },
+//@end
+
+    // ---- representation invariant -------------------------------------------------------------------
+    spec fn gpos(&self) -> int { self.base() + self.buf_pos.start }
+    spec fn coords(&self) -> bool {
+        self.position.line == true_line(self.f(), self.position.byte as int) && self.position.byte <= self.f().len()
+    }
+    spec fn wf(&self) -> bool {
+        &&& self.wf0() && self.buf_reader.cap() >= 2
+        &&& self.position.byte == self.gpos()
+        &&& self.buf_pos.start <= self.search_pos <= self.b().len()
+        &&& match self.state {
+                State::New => self.base() == 0 && self.buf_pos.start == 0 && self.search_pos == 0 && self.buf_pos.seq_pos@.len() == 0
+                              && (self.clean() ==> self.b().len() == 0),
+                State::Parsing => self.filled() && complete(self.b(), self.buf_pos.start as int, self.buf_pos.seq_pos@, self.search_pos as int)
+                              && self.b()[self.buf_pos.start as int] == 62u8,
+                State::Incomplete => partial(self.b(), self.buf_pos.start as int, self.buf_pos.seq_pos@, self.search_pos as int)
+                              && self.buf_pos.start < self.b().len() && self.b()[self.buf_pos.start as int] == 62u8
+                              && (self.clean() ==> at_end(self.b(), self.search_pos as int) && self.b().len() == self.buf_reader.cap()),
+                State::Positioned => self.filled() && self.buf_pos.seq_pos@.len() == 0 && self.search_pos == self.buf_pos.start
+                              && self.buf_pos.start < self.b().len() && self.b()[self.buf_pos.start as int] == 62u8,
+                State::Finished => true,
+            }
+        &&& (self.state != State::Finished && self.state != State::New ==> self.coords())
+    }
+    spec fn poisoned(&self) -> bool { self.state == State::New && self.b().len() > 0 }
+    /// file offset of the next unread record
+    spec fn cursor(&self) -> int {
+        match self.state {
+            State::New => first_nonblank(self.f(), 0),
+            State::Parsing => self.base() + self.search_pos,
+            _ => self.gpos(),
+        }
+    }
+
+//@fn fasta::Reader::resume_incomplete_search ret=r tags=C01,C03,C06,C09,C14 r12=fill_buf
+//@spec
+        requires
+            old(self).wf0(), old(self).filled(), old(self).buf_reader.cap() >= 2,
+            partial(old(self).b(), old(self).buf_pos.start as int, old(self).buf_pos.seq_pos@, old(self).search_pos as int),
+            old(self).buf_pos.start < old(self).b().len(),
+            old(self).state == State::Incomplete,
+            old(self).clean() ==> old(self).b().len() == old(self).buf_reader.cap() && at_end(old(self).b(), old(self).search_pos as int),
+        ensures
+            [C03,C05,C06|fasta.resume.frame] final(self).wf0() && final(self).f() == old(self).f() && final(self).gpos() == old(self).gpos()
+                && final(self).position == old(self).position && final(self).filled() && final(self).buf_pos.start < final(self).b().len()
+                && final(self).b()[final(self).buf_pos.start as int] == old(self).b()[old(self).buf_pos.start as int]
+                && final(self).buf_pos.start <= final(self).search_pos <= final(self).b().len(),
+            [C01,C03|fasta.resume.found] r matches Ok(found) ==> found && final(self).buf_reader.errs() == old(self).buf_reader.errs()
+                && ((complete(final(self).b(), final(self).buf_pos.start as int, final(self).buf_pos.seq_pos@, final(self).search_pos as int) && final(self).state == State::Incomplete)
+                    || (eofrec(final(self).b(), final(self).buf_pos.start as int, final(self).buf_pos.seq_pos@, final(self).search_pos as int) && final(self).state == State::Finished
+                        && final(self).b().len() < final(self).buf_reader.cap())),
+            [C14,C09|fasta.resume.err] r matches Err(e) ==> final(self).state == State::Incomplete
+                && partial(final(self).b(), final(self).buf_pos.start as int, final(self).buf_pos.seq_pos@, final(self).search_pos as int)
+                && match e {
+                    Error::Io(x) => final(self).buf_reader.errs() == old(self).buf_reader.errs().push(x),
+                    Error::BufferLimit => final(self).buf_reader.errs() == old(self).buf_reader.errs()
+                        && (final(self).clean() ==> at_end(final(self).b(), final(self).search_pos as int) && final(self).b().len() == final(self).buf_reader.cap()),
+                    _ => false,
+                },
+            [C04,C03|fasta.resume.no_compaction_when_told] !make_room ==> final(self).base() == old(self).base()
+                && final(self).buf_pos.start == old(self).buf_pos.start
+                && old(self).b().len() <= final(self).b().len() && final(self).b().subrange(0, old(self).b().len() as int) == old(self).b(),
+            [C09|fasta.resume.capacity_monotone] final(self).buf_reader.cap() >= old(self).buf_reader.cap(),
+            [C09|fasta.resume.growth_only_when_record_does_not_fit] make_room && old(self).clean()
+                && final(self).buf_reader.cap() > old(self).buf_reader.cap() ==>
+                no_bnd(final(self).f(), final(self).gpos(), final(self).gpos() + old(self).buf_reader.cap() - 1),
+//@loop 0 kw=loop
+            invariant
+                [C03,C06|fasta.resume.inv.frame] self.wf0() && self.filled() && self.f() == old(self).f() && self.gpos() == old(self).gpos()
+                    && self.position == old(self).position && self.buf_reader.cap() >= 2 && self.state == State::Incomplete
+                    && self.buf_pos.start < self.b().len() && self.b()[self.buf_pos.start as int] == old(self).b()[old(self).buf_pos.start as int],
+                [C01,C03|fasta.resume.inv.partial] partial(self.b(), self.buf_pos.start as int, self.buf_pos.seq_pos@, self.search_pos as int),
+                [C14|fasta.resume.inv.errs] self.buf_reader.errs() == old(self).buf_reader.errs(),
+                [C04,C03|fasta.resume.inv.no_compaction] !make_room ==> self.base() == old(self).base() && self.buf_pos.start == old(self).buf_pos.start
+                    && old(self).b().len() <= self.b().len() && self.b().subrange(0, old(self).b().len() as int) == old(self).b(),
+                [C09|fasta.resume.inv.capacity] self.buf_reader.cap() >= old(self).buf_reader.cap()
+                    && (make_room && old(self).clean()
+                        && self.buf_reader.cap() > old(self).buf_reader.cap() ==>
+                        no_bnd(self.f(), self.gpos(), self.gpos() + old(self).buf_reader.cap() - 1)),
+                [C09|fasta.resume.inv.full_when_clean] self.clean() ==> self.b().len() == self.buf_reader.cap() && at_end(self.b(), self.search_pos as int),
+            decreases
+                (if self.base() + self.b().len() <= self.f().len() { self.f().len() - self.base() - self.b().len() } else { 0 }),
+//@at depth=3 kw=self nth=0 expect="self\.grow\(\)"
+                proof {
+                    if make_room && self.clean() {
+                        let e = self.search_pos as int;
+                        lemma_no_bnd_lift(self.f(), self.base(), self.b(), 0, e);
+                    }
+                }
+//@at depth=2 kw=fill_buf nth=0
+            let ghost b_before = self.b();
+            proof {
+                // whatever the refill appends (also when it fails half-way), the scanned part stays valid
+                let (st, l, e) = (self.buf_pos.start as int, spv(self.buf_pos.seq_pos@), self.search_pos as int);
+                assert forall|b2: Seq<u8>| b_before.len() <= b2.len() && b2.subrange(0, b_before.len() as int) == b_before
+                    implies #[trigger] partial_l(b2, st, l, e) by { lemma_partial_prefix(b_before, b2, st, l, e); }
+            }
+//@at depth=2 kw=if nth=1 expect="if self\.search\(\)"
+            proof {
+                lemma_partial_prefix(b_before, self.b(), self.buf_pos.start as int, spv(self.buf_pos.seq_pos@), self.search_pos as int);
+            }
 //@end
 }
 
